@@ -376,6 +376,15 @@ CLAIMED['C18']['text'] = (
     'same tree on json.build_tree\'s domain (C18_entry_points; D31 bytes, D32 cycles are its open boundary); the executable statement has '
     'no violated clause on the model\'s prediction (C18_model_holds_*). Tie: generated graphs built as real Python objects through all '
     'entry points under all options; tree, to_obj, copy, exception class compared.')
+
+CLAIMED['C05']['text'] = CLAIMED['C05']['text'].replace(
+    '_partial: MultiSetEdit, the matcher, EditCollection and the search are not modelled (covered by holds_C05 on the implementation only);',
+    '_partial: the API machine now also MODELS MultiSetEdit + WeightedBipartiteMatcher and EditCollection / FixedKeyDictNodeEdit call by '
+    'call (lazy iterators, memos, forced matching; make_distinct counts and the assignment as oracle inputs) and corr_C05 compares every '
+    'outcome and the final script for them, but their class invariants are not proved, so the closing theorems are stated for documents '
+    'without mappings (`covered`);')
+CLAIMED['C05']['text'] = CLAIMED['C05']['text'] + (
+    ' A shared-strings family runs every history in a fresh process and again in a long-lived one (process-global state).')
 NOT_YET = 'model and theorem not completed yet (DESIGN.md section 7)'
 NA = {}
 
